@@ -25,10 +25,11 @@
      A Go panic in the end blocker is [Panic] (the block is not committed).
    * oracle sets are created by the end blocker (rules 1 and 2 of isNeedOracleSetRequest are
      modelled; rule 3, the float power-diff, is the input bit [pd]); batches and outgoing bridge
-     calls are created by abstract ops [AddBatch]/[AddCall] (their real construction belongs to
-     other properties); pruneOracleSet is not modelled (it only deletes sets the slash cursor has
+     calls are created / removed by abstract ops [AddBatch]/[DelBatch]/[AddCall]/[DelCall] (their
+     real construction and resolution belong to other properties); pruneOracleSet is not modelled (it only deletes sets the slash cursor has
      already passed, and needs an observed oracle-set claim). *)
 From Coq Require Import ZArith List Bool.
+From FxV Require Import gen.Gen_OracleSlash.
 Import ListNotations.
 Open Scope Z_scope.
 
@@ -393,6 +394,9 @@ Definition add_call (s : state) : res :=
         (calls s ++ [mkObj (next_call s) (height s) []]) (slashed_call s) (next_call s + 1)
         (burned s) (gov_und s)).
 
+Definition del_call (s : state) (n : Z) : res :=
+  Ok (set_objs s KCall (filter (fun x => negb (ob_nonce x =? n)) (calls s))).
+
 Definition fund (s : state) (a amt : Z) : res :=
   Ok (mkState (height s) (now s) (ubtime s) (vals s) (prm s) (proposal s) (keys s)
         (recs s) (by_bridger s) (by_ext s) (total_power s) (deleg s) (ubds s) (reds s)
@@ -415,84 +419,112 @@ Definition slash_one (h : Z) (a : Z) (st : lstate) : lstate :=
   | None => mkL (l_recs st) (l_lsh st) true     (* unreachable: the snapshot comes from the same store *)
   end.
 
-(* inner loop: `if StartHeight > object height { continue }; if no confirm { SlashOracle }` *)
-Definition must_sign (r : oracle) (x : obj) : bool :=
-  negb (ob_height x <? o_start r) && negb (has_conf_ext (o_ext r) x).
+(* inner loop: `if <skip: StartHeight vs object height> { continue }; if no confirm { SlashOracle }`.
+   The skip tests, the age tests, the cursor starts and the SlashOracle argument kinds come from
+   gen/Gen_OracleSlash.v, regenerated from abci.go / oracle_set.go / batch_confirm.go /
+   bridge_call_confirm.go on every run. *)
+Definition skip_of (k : kind) : Z -> Z -> bool :=
+  match k with KSet => skip_set | KBatch => skip_batch | KCall => skip_call end.
+Definition by_address_of (k : kind) : bool :=
+  match k with KSet => slash_by_address_set | KBatch => slash_by_address_batch | KCall => slash_by_address_call end.
 
-Definition slash_obj (h : Z) (snap : list oracle) (st : lstate) (x : obj) : lstate :=
-  fold_left (fun st r => if must_sign r x then slash_one h (o_addr r) st else st) snap st.
+Definition must_sign (k : kind) (r : oracle) (x : obj) : bool :=
+  negb (skip_of k (o_start r) (ob_height x)) && negb (has_conf_ext (o_ext r) x).
+
+Definition slash_obj (k : kind) (h : Z) (snap : list oracle) (st : lstate) (x : obj) : lstate :=
+  fold_left (fun st r => if must_sign k r x then slash_one h (o_addr r) st else st) snap st.
 
 Fixpoint take_while {A} (f : A -> bool) (l : list A) : list A :=
   match l with [] => [] | x :: r => if f x then x :: take_while f r else [] end.
 
-(* GetUnSlashedOracleSets: nonce > last slashed, ascending, stop at the first with height >= h - w *)
+(* GetUnSlashedOracleSets: nonces from the cursor, ascending, stop at the first that is not old enough *)
 Definition due_sets (s : state) : list obj :=
-  take_while (fun x => ob_height x <? height s - p_window (prm s))
-             (filter (fun x => slashed_set s <? ob_nonce x) (sets s)).
-(* GetUnSlashedBatches: block in [last slashed block + 1, h - w) *)
+  take_while (fun x => old_set (ob_height x) (height s - p_window (prm s)))
+             (filter (fun x => from_set (slashed_set s) <=? ob_nonce x) (sets s)).
+(* GetUnSlashedBatches: block index range *)
 Definition due_batches (s : state) : list obj :=
-  filter (fun x => (slashed_batch_block s <? ob_height x) && (ob_height x <? height s - p_window (prm s)))
+  filter (fun x => (from_batch (slashed_batch_block s) <=? ob_height x) &&
+                   old_batch (ob_height x) (height s - p_window (prm s)))
          (batches s).
-(* GetUnSlashedBridgeCalls: nonce >= last slashed (inclusive), stop at the first with height > h - w *)
+(* GetUnSlashedBridgeCalls: nonces from the cursor, stop at the first that is not old enough *)
 Definition due_calls (s : state) : list obj :=
-  take_while (fun x => ob_height x <=? height s - p_window (prm s))
-             (filter (fun x => slashed_call s <=? ob_nonce x) (calls s)).
+  take_while (fun x => old_call (ob_height x) (height s - p_window (prm s)))
+             (filter (fun x => from_call (slashed_call s) <=? ob_nonce x) (calls s)).
+
+(* what the three loops look at in the block being finalized *)
+Definition due_of (s : state) (k : kind) : list obj :=
+  if slashing_off (height s) (p_window (prm s)) then []
+  else match k with KSet => due_sets s | KBatch => due_batches s | KCall => due_calls s end.
 
 Definition last_or {A} (f : A -> Z) (l : list A) (d : Z) : Z :=
   match rev l with x :: _ => f x | [] => d end.
 
-(* bridgeCallSlashing passes oracles[i].String() (the proto text of the record) to SlashOracle,
-   whose MustAccAddressFromBech32 panics *)
-Definition call_would_slash (snap : list oracle) (l : list obj) : bool :=
-  existsb (fun x => existsb (fun r => must_sign r x) snap) l.
+(* a loop that hands SlashOracle something that is not a bech32 address panics in
+   MustAccAddressFromBech32 as soon as it wants to slash *)
+Definition would_slash (k : kind) (snap : list oracle) (l : list obj) : bool :=
+  existsb (fun x => existsb (fun r => must_sign k r x) snap) l.
+Definition loop_panics (s : state) (k : kind) : bool :=
+  negb (by_address_of k) && would_slash k (online_recs s) (due_of s k).
 
 Definition matured_sum (t : Z) (l : list ubd) (a : Z) : Z :=
   sumZ (map u_amt (filter (fun u => (u_orc u =? a) && (u_time u <=? t)) l)).
 
 Definition has_power (s : state) : bool := existsb (fun r => 0 <? power r) (online_recs s).
 
-Definition end_block (s : state) (t_end t_next : Z) (pd : bool) : res :=
+(* staking end blocker: mature unbonding entries (paid to the delegate address) and redelegations *)
+Definition staking_end (s : state) (t_end : Z) : state :=
+  mkState (height s) (now s) (ubtime s) (vals s) (prm s) (proposal s) (keys s)
+    (recs s) (by_bridger s) (by_ext s) (total_power s) (deleg s)
+    (filter (fun u => negb (u_time u <=? t_end)) (ubds s))
+    (filter (fun r => negb (r_time r <=? t_end)) (reds s))
+    (bal_o s) (fun a => bal_d s a + matured_sum t_end (ubds s) a)
+    (sets s) (latest_set s) (slashed_set s) (last_slash_height s) (batches s) (slashed_batch_block s)
+    (calls s) (slashed_call s) (next_call s) (burned s) (gov_und s).
+
+(* keeper.slashing: None = a loop panics *)
+Definition slashing (s : state) : option state :=
   let h := height s in
-  let w := p_window (prm s) in
-  (* staking end blocker: mature unbonding entries and redelegations *)
-  let bal_d' := fun a => bal_d s a + matured_sum t_end (ubds s) a in
-  let ubds' := filter (fun u => negb (u_time u <=? t_end)) (ubds s) in
-  let reds' := filter (fun r => negb (r_time r <=? t_end)) (reds s) in
-  (* crosschain EndBlocker: slashing *)
   let snap := online_recs s in
   let st0 := mkL (recs s) (last_slash_height s) false in
-  let run := negb (h <=? w) in
-  let ds := if run then due_sets s else [] in
-  let db := if run then due_batches s else [] in
-  let dc := if run then due_calls s else [] in
-  let st1 := fold_left (slash_obj h snap) ds st0 in
-  let st2 := fold_left (slash_obj h snap) db st1 in
-  if call_would_slash snap dc then Panic
+  let st3 := fold_left (slash_obj KCall h snap) (due_of s KCall)
+               (fold_left (slash_obj KBatch h snap) (due_of s KBatch)
+                  (fold_left (slash_obj KSet h snap) (due_of s KSet) st0)) in
+  if loop_panics s KSet || loop_panics s KBatch || loop_panics s KCall then None
   else
     let s1 := mkState h (now s) (ubtime s) (vals s) (prm s) (proposal s) (keys s)
-                (l_recs st2) (by_bridger s) (by_ext s) (total_power s) (deleg s) ubds' reds'
-                (bal_o s) bal_d' (sets s) (latest_set s)
-                (last_or ob_nonce ds (slashed_set s)) (l_lsh st2)
-                (batches s) (last_or ob_height db (slashed_batch_block s))
-                (calls s) (last_or ob_nonce dc (slashed_call s)) (next_call s) (burned s) (gov_und s) in
-    let s2 := if l_has st2 then refresh_power s1 else s1 in
-    (* createOracleSetRequest *)
-    let need := match find_obj (latest_set s2) (sets s2) with None => true | Some _ => false end
-                || (last_slash_height s2 =? h) || pd in
-    let s3 := if need && has_power s2
-              then refresh_power
-                     (mkState h (now s2) (ubtime s2) (vals s2) (prm s2) (proposal s2) (keys s2)
-                        (recs s2) (by_bridger s2) (by_ext s2) (total_power s2) (deleg s2) (ubds s2) (reds s2)
-                        (bal_o s2) (bal_d s2)
-                        (sets s2 ++ [mkObj (latest_set s2 + 1) h []]) (latest_set s2 + 1)
-                        (slashed_set s2) (last_slash_height s2) (batches s2) (slashed_batch_block s2)
-                        (calls s2) (slashed_call s2) (next_call s2) (burned s2) (gov_und s2))
-              else s2 in
-    Ok (mkState (h + 1) t_next (ubtime s3) (vals s3) (prm s3) (proposal s3) (keys s3)
-          (recs s3) (by_bridger s3) (by_ext s3) (total_power s3) (deleg s3) (ubds s3) (reds s3)
-          (bal_o s3) (bal_d s3) (sets s3) (latest_set s3) (slashed_set s3) (last_slash_height s3)
-          (batches s3) (slashed_batch_block s3) (calls s3) (slashed_call s3) (next_call s3)
-          (burned s3) (gov_und s3)).
+                (l_recs st3) (by_bridger s) (by_ext s) (total_power s) (deleg s) (ubds s) (reds s)
+                (bal_o s) (bal_d s) (sets s) (latest_set s)
+                (last_or ob_nonce (due_of s KSet) (slashed_set s)) (l_lsh st3)
+                (batches s) (last_or ob_height (due_of s KBatch) (slashed_batch_block s))
+                (calls s) (last_or ob_nonce (due_of s KCall) (slashed_call s)) (next_call s) (burned s) (gov_und s) in
+    Some (if l_has st3 then refresh_power s1 else s1).
+
+(* createOracleSetRequest *)
+Definition create_set (s : state) (pd : bool) : state :=
+  let need := match find_obj (latest_set s) (sets s) with None => true | Some _ => false end
+              || (last_slash_height s =? height s) || pd in
+  if need && has_power s
+  then refresh_power
+         (mkState (height s) (now s) (ubtime s) (vals s) (prm s) (proposal s) (keys s)
+            (recs s) (by_bridger s) (by_ext s) (total_power s) (deleg s) (ubds s) (reds s)
+            (bal_o s) (bal_d s)
+            (sets s ++ [mkObj (latest_set s + 1) (height s) []]) (latest_set s + 1)
+            (slashed_set s) (last_slash_height s) (batches s) (slashed_batch_block s)
+            (calls s) (slashed_call s) (next_call s) (burned s) (gov_und s))
+  else s.
+
+Definition next_block (s : state) (t_next : Z) : state :=
+  mkState (height s + 1) t_next (ubtime s) (vals s) (prm s) (proposal s) (keys s)
+    (recs s) (by_bridger s) (by_ext s) (total_power s) (deleg s) (ubds s) (reds s)
+    (bal_o s) (bal_d s) (sets s) (latest_set s) (slashed_set s) (last_slash_height s)
+    (batches s) (slashed_batch_block s) (calls s) (slashed_call s) (next_call s)
+    (burned s) (gov_und s).
+
+Definition end_block (s : state) (t_end t_next : Z) (pd : bool) : res :=
+  match slashing (staking_end s t_end) with
+  | None => Panic
+  | Some s2 => Ok (next_block (create_set s2 pd) t_next)
+  end.
 
 (* ---------------- operations ---------------- *)
 Inductive op :=
@@ -508,6 +540,7 @@ Inductive op :=
 | AddBatch (id : Z)
 | DelBatch (id : Z)
 | AddCall
+| DelCall (n : Z)
 | Fund (a amt : Z)
 | EndBlock (t_end t_next : Z) (pd : bool).
 
@@ -525,6 +558,7 @@ Definition step (s : state) (o : op) : res :=
   | AddBatch id => add_batch s id
   | DelBatch id => del_batch s id
   | AddCall => add_call s
+  | DelCall n => del_call s n
   | Fund a amt => fund s a amt
   | EndBlock t1 t2 pd => end_block s t1 t2 pd
   end.
